@@ -11,6 +11,8 @@ def main():
         ctx = vlib.Ctx(prop, "quick", rp.get("seed", seed))
         ok, out = vlib.build()
         if not ok: print("build failed", out); return 2
+        if isinstance(rp.get("case"), dict) and rp["case"].get("pandas_copy_on_write"):
+            import pandas as pd; pd.set_option("mode.copy_on_write", True)       # the input failed with pandas' copy-on-write mode on
         if rp.get("kind") == "failing-input" and hasattr(mod, "oracle_case"):
             res = mod.oracle_case(rp["case"]); bad = False
             for sig, detail in res:
